@@ -55,6 +55,12 @@ impl Drop for Scratch {
     fn drop(&mut self) { let _ = fs::remove_dir_all(&self.0); }
 }
 
+/// a symbolic link removed when dropped
+struct Scratch2(PathBuf);
+impl Drop for Scratch2 {
+    fn drop(&mut self) { let _ = fs::remove_file(&self.0); }
+}
+
 /// parse `a,b(c,d()),e` starting at *i; stops at `)` or end of input
 fn materialise(dir: &Path, s: &[u8], i: &mut usize) {
     loop {
@@ -143,6 +149,9 @@ impl Ids {
 }
 
 pub fn run_case(line: &str) -> String {
+    // an EMPTY first op (`root;tree;;op;...`) means: the client names the workspace root and every document through a
+    // symbolic link to the scratch directory (model and oracle skip empty ops: nothing observable may change)
+    let via_link = line.splitn(3, ';').nth(2).map(|r| r.starts_with(';')).unwrap_or(false);
     let mut parts = line.split(';');
     let root = parts.next().unwrap_or("-");
     let tree = parts.next().unwrap_or("");
@@ -159,7 +168,15 @@ pub fn run_case(line: &str) -> String {
     materialise(&top, tree.as_bytes(), &mut i);
     assert!(i == tree.len(), "unbalanced tree");
 
-    let root_uri = if root == "-" { None } else { Some(Url::from_file_path(abs(&top, root)).unwrap()) };
+    // what the client sees as the top directory
+    let link = base.with_file_name(format!("{}-link", base.file_name().unwrap().to_string_lossy()));
+    let _link_guard = if via_link {
+        let _ = fs::remove_file(&link);
+        std::os::unix::fs::symlink(&top, &link).unwrap();
+        Some(Scratch2(link.clone()))
+    } else { None };
+    let ctop: PathBuf = if via_link { link.clone() } else { top.clone() };
+    let root_uri = if root == "-" { None } else { Some(Url::from_file_path(abs(&ctop, root)).unwrap()) };
     let mut pm = ProjectManager::new(root_uri, Box::new(SilentLogger)).unwrap();
     let pool = ThreadPool::new(1, Box::new(SilentLogger));
     let mut ids = Ids { seen: Vec::new() };
@@ -170,7 +187,7 @@ pub fn run_case(line: &str) -> String {
         let kind = f.next().unwrap();
         let a1 = f.next().unwrap_or("");
         let a2 = f.next().unwrap_or("");
-        let uri = || Url::from_file_path(abs(&top, a1)).unwrap();
+        let uri = || Url::from_file_path(abs(&ctop, a1)).unwrap();
         let answer: Result<String, _> = catch_unwind(AssertUnwindSafe(|| match kind {
             "F" => {
                 let p = abs(&top, a1);
